@@ -378,6 +378,13 @@ def _real_rot(rng, n):
                     d_ = img - rnp.array(dw.orbit[jp])
                     if not rnp.allclose(d_, rnp.round(d_), atol=1e-6) or not (rnp.allclose(rnp.round(d_), dw.T[ip, isym]) or rnp.allclose(rnp.round(d_), -dw.T[ip, isym])):
                         bad.append("operation %d: site %d is not mapped onto its symmetry image (up to the recorded lattice vector)" % (isym, ip))
+            # the documented short form: ONE representative position (2D array), the rest of the orbit generated by the group -- the same object as
+            # when the generated orbit is passed in full
+            dw1 = Dwann(sg, rnp.array(pos[:1]), orbital=orb, orbitalrotator=om.OrbitalRotator(), basis_list=[rnp.eye(3)] * len(dw.orbit), spinor=spinor)
+            dwf = Dwann(sg, rnp.array(dw1.orbit), orbital=orb, orbitalrotator=om.OrbitalRotator(), basis_list=[rnp.eye(3)] * len(dw1.orbit), spinor=spinor)
+            if len(dw1.orbit) != len(dw.orbit) or rnp.shape(dw1.rot_orb) != rnp.shape(dwf.rot_orb) or not rnp.allclose(dw1.rot_orb, dwf.rot_orb, atol=1e-12) \
+                    or not rnp.array_equal(dw1.atommap, dwf.atommap) or not rnp.array_equal(dw1.T, dwf.T):
+                bad.append("built from one representative position: differs from the object built from the full orbit")
             cases += 1
             if bad:
                 fails.append(dict(input=dict(structure=sname, orbital=orb, spinor=spinor), clause="Wannier representation matrices are unitary and map each centre onto its symmetry image", failed=bad[:4]))
